@@ -48,7 +48,7 @@
         // rows-complete (nothing feasible is cut off): wherever the inner value v lies in its derived range, the intended
         // auxiliary value |v| satisfies the two lower rows and the declared range of the auxiliary
         assert forall|env: Env| (sem(inner_e, env) matches Some(v) && contains(inner_bounds, v) && env[var_name@] == sem_abs(v))
-            implies c_holds(vx_a7, env) && c_holds(vx_a8, env) && in_domain(vx_a6, #[trigger] env[var_name@]) by {
+            implies c_holds_w(vx_a7, env) && c_holds_w(vx_a8, env) && in_domain(vx_a6, #[trigger] env[var_name@]) by {
             broadcast use semx2;
             lemma_f_neg(inner_bounds.lower);
         }
@@ -73,7 +73,7 @@
         // for EVERY v in the derived range [L, U]: this is what a too-small big-M constant would break
         assert forall|env: Env| (sem(inner_e, env) matches Some(v) && contains(inner_bounds, v) && env[an] == sem_abs(v)
             && #[trigger] env[positive_name@] == (if v >= 0real { 1real } else { 0real }))
-            implies c_holds(vx_a11, env) && c_holds(vx_a12, env) by {
+            implies c_holds_w(vx_a11, env) && c_holds_w(vx_a12, env) by {
             broadcast use semx2;
             let v = sem(inner_e, env)->Some_0;
             lemma_abs_rows_complete(env[an], v, env[positive_name@], rv(inner_bounds.lower), rv(inner_bounds.upper));
@@ -87,7 +87,7 @@
                 assert(lz_ok(c1, env));
                 assert(sem(inner_e, env) == Some(v));
                 assert(p == 0real || p == 1real);
-                assert(c_holds(vx_a7, env) && c_holds(vx_a8, env) && c_holds(vx_a11, env) && c_holds(vx_a12, env));
+                assert(c_holds_w(vx_a7, env) && c_holds_w(vx_a8, env) && c_holds_w(vx_a11, env) && c_holds_w(vx_a12, env));
                 assert(env[an] == sem_abs(v)) by { broadcast use semx2; lemma_abs_rows(env[an], v, p, rv(k3), rv(k4)); }
             }
         }
@@ -104,7 +104,7 @@
                     assert(lz_ok(c5, env)); assert(lz_ok(c4, env)); assert(lz_ok(c3, env)); assert(lz_ok(c2, env));
                     assert(lz_ok(c1, env));
                     assert(sem(inner_e, env) == Some(v));
-                    assert(c_holds(vx_a7, env) && c_holds(vx_a8, env));
+                    assert(c_holds_w(vx_a7, env) && c_holds_w(vx_a8, env));
                     assert(env[an] >= v && env[an] >= -v) by { broadcast use semx2; }
                 }
             }
